@@ -5,9 +5,11 @@ passed to ``remap_token_value``. Oracle (independent of the implementation):
 
 * forward: every ``path`` / plain ``location`` under ``old_dir`` becomes ``new_dir`` + the *same* relative
   name (string surgery on the prefix, no normalisation needed because generated paths are normalised);
-  a ``file://`` location is decoded, moved and encoded again with ``urllib.parse.quote`` (how the
-  repository itself builds file URLs); other schemes, non-file values and the structure are unchanged;
-* round trip: ``remap(remap(v, old, new), new, old) == v``.
+  a ``file://`` location must *denote* the moved path (compared after decoding: which characters the
+  intermediate URL escapes is not promised by the property); other schemes, non-file values and the
+  structure are unchanged;
+* round trip: ``remap(remap(v, old, new), new, old) == v`` exactly (this is where a file:// location that
+  was decoded but not encoded again shows up).
 
 Each root cause has its own violation kind; a mismatch is attributed to a root cause only if that
 hypothesis predicts the observed string exactly, everything else is a generic mismatch.
@@ -93,7 +95,10 @@ def _attribute(orig: str, got, old: str, new: str):
     if not isinstance(got, str):
         return None
     if orig.startswith("file://"):
-        moved = _move(unquote(orig[7:]), old, new)
+        try:
+            moved = _move(unquote(orig[7:]), old, new)
+        except HarnessError:
+            return None
         if got == "file://" + moved and quote(moved) != moved:
             return K_REQUOTE
         return None
@@ -107,14 +112,20 @@ def _attribute(orig: str, got, old: str, new: str):
     return None
 
 
-def diffs(orig, exp, got, old, new, where="$"):
+def same_file_url(exp: str, got) -> bool:
+    """both are file:// URLs denoting the same path (they may differ in which characters are escaped)"""
+    return (isinstance(got, str) and exp.startswith("file://") and got.startswith("file://")
+            and unquote(got[7:]) == unquote(exp[7:]))
+
+
+def diffs(orig, exp, got, old, new, where="$", exact_urls=True):
     """yield (kind or None, message) for every place where got differs from exp"""
     if isinstance(exp, list):
         if not isinstance(got, list) or len(got) != len(exp):
             yield None, f"{where}: expected a list of {len(exp)}, got {got!r}"
             return
         for i, (o, e, g) in enumerate(zip(orig, exp, got)):
-            yield from diffs(o, e, g, old, new, f"{where}[{i}]")
+            yield from diffs(o, e, g, old, new, f"{where}[{i}]", exact_urls)
     elif isinstance(exp, dict):
         if not isinstance(got, dict) or list(got.keys()) != list(exp.keys()):
             if not isinstance(got, dict) or set(got.keys()) != set(exp.keys()):
@@ -123,11 +134,11 @@ def diffs(orig, exp, got, old, new, where="$"):
         is_file = exp.get("class") in ("File", "Directory")
         for k in exp:
             if is_file and k in ("path", "location"):
-                if got[k] != exp[k]:
+                if got[k] != exp[k] and (exact_urls or not same_file_url(exp[k], got[k])):
                     yield _attribute(orig[k], got[k], old, new), (
                         f"{where}.{k}: {orig[k]!r} -> {got[k]!r}, expected {exp[k]!r} (old_dir {old!r}, new_dir {new!r})")
             else:
-                yield from diffs(orig[k], exp[k], got[k], old, new, f"{where}.{k}")
+                yield from diffs(orig[k], exp[k], got[k], old, new, f"{where}.{k}", exact_urls)
     else:
         if type(got) is not type(exp) or got != exp:
             yield None, f"{where}: {orig!r} -> {got!r}, expected unchanged"
@@ -195,12 +206,20 @@ def run(case, rec):
             labels.add("secondaryFiles")
         if f.get("listing"):
             labels.add("listing")
+    problems = list(diffs(value, exp, fwd, old, new, exact_urls=False))
+    generic = "C32:forward-mismatch"
+    back = None
+    if not problems:
+        back = remap_token_value(posixpath, new, old, copy.deepcopy(fwd))
+        # `value` is the expected result of the way back; its forward image is what was remapped
+        problems = list(diffs(fwd, value, back, new, old))
+        generic = "C32:round-trip-mismatch"
+    labels.add("verdict-clean" if not problems else "verdict-mismatch")
+    if not problems and hostile_nested:
+        labels.add("verdict-clean-and-nontrivial")
     rec.label(*sorted(labels))
     rec.nontrivial(hostile_nested)
-    judge(list(diffs(value, exp, fwd, old, new)), "C32:forward-mismatch")
-    back = remap_token_value(posixpath, new, old, copy.deepcopy(fwd))
-    # `value` is the expected result of the way back; its own forward image is what was remapped
-    judge(list(diffs(fwd, value, back, new, old)), "C32:round-trip-mismatch")
+    judge(problems, generic)
     if back != value:
         raise Violation("C32:round-trip-mismatch", f"{value!r} -> {fwd!r} -> {back!r}")
 
@@ -325,7 +344,7 @@ def check_single_path(case, rec):
     rec.label(kind, *(["percent-escape"] if unquote(s) != s and kind != "other-scheme" else []),
               *(["colon-slash"] if kind == "plain" and ":/" in s else []))
     rec.nontrivial(kind != "other-scheme" and not PLAIN_NAME.match(name))
-    if got != exp:
+    if got != exp and not same_file_url(exp, got):
         k = _attribute(s, got, old, new)
         raise Violation(k or "C32:forward-mismatch", f"remap_path({s!r}, {old!r}, {new!r}) = {got!r}, expected {exp!r}")
     back = remap_path(posixpath, got, new, old)
@@ -364,7 +383,7 @@ def check_names(case, rec):
         value = [{"class": "File", key: path if form != "url" else "file://" + quote(path), "basename": name}]
         exp = expected(value, old, new)
         fwd = remap_token_value(posixpath, old, new, copy.deepcopy(value))
-        problems = list(diffs(value, exp, fwd, old, new))
+        problems = list(diffs(value, exp, fwd, old, new, exact_urls=False))
         generic = "C32:forward-mismatch"
         if not problems:
             back = remap_token_value(posixpath, new, old, copy.deepcopy(fwd))
